@@ -6,7 +6,7 @@
 From Coq Require Import Permutation.
 From Walleye Require Import Model.Search Spec.Minimax Spec.Abs Proofs.MateText Proofs.DrawTableProofs Proofs.TableRestored Proofs.RootProofs
   Proofs.CheckProofs Proofs.GenerateAbs Proofs.LegalMoves Proofs.PVSRoot Proofs.MateInOne Proofs.PositionGo Proofs.ClockSim Proofs.AlwaysAnswered Proofs.TightRange Proofs.OhBound Proofs.MateHeld Proofs.OhPosition.
-From Walleye Require Import Model.Uci Gen.Handover.
+From Walleye Require Import Model.Uci Gen.Handover Gen.ZobristTable.
 Open Scope Z_scope.
 
 (* N is never 0 for any value a completed root evaluation can take, and has the sign of the score *)
@@ -125,6 +125,33 @@ Proof. exact generated_oh_below_mark. Qed.
    drained into `best_move`, and that is what is unwrapped and played (Gen/Consts.v, extract_consts.py) *)
 Theorem C11_source_drains_the_channel_after_the_join : HANDOVER_DRAINS_AFTER_JOIN = true.
 Proof. reflexivity. Qed.
+
+(* the premises are satisfiable and the conclusion is what was false before F14: the witness position of that defect
+   (k7/8/8/8/8/7P/5pPK/6BR b: f2f1n mates, f2f1q shares its squares), the engine's own hash table, insertion sort as
+   the ordering, the deadline at clock reading 300: the first iteration ends at a reading <= 300, the search is cut
+   off later (its last reading is beyond 300), and the last move it handed over is f2f1n, after which White has no
+   move and is in check *)
+Definition c11_fen : str := [107; 55; 47; 56; 47; 56; 47; 56; 47; 56; 47; 55; 80; 47; 53; 112; 80; 75; 47; 54; 66; 82; 32; 98; 32; 45; 32; 45; 32; 48; 32; 49]%N.
+Definition c11_b := match from_fen zt_concrete c11_fen with Ok s => s | _ => mkBoard [] White None (0,0) (0,0) false false false false 0 None None 0 end.
+Definition c11_t : dtable := [(zobrist_key c11_b, 1)].
+Definition c11_sort := fun (_ : N) l => stable_sort_desc l.
+Example C11_underpromotion_mate_is_played_at_deadline_300 :
+  let zt := zt_concrete in
+  order_heuristic c11_b = 0 /\
+  match first_iteration zt c11_sort (Some 300%N) 60 c11_b c11_t with
+  | Ok (Some r1, _) => (clock (r_s r1) <=? 300)%N = true
+  | _ => False
+  end /\
+  match get_best_move zt c11_sort (Some 300%N) 60 c11_b c11_t with
+  | Ok (ev, s) =>
+      (300 <? clock s)%N = true /\
+      match rev (sends_of ev) with
+      | m :: _ => best_move_text m = Ok [102; 50; 102; 49; 110]%N /\ generate_moves zt m AllMoves = [] /\ is_check m (to_move m) = true
+      | [] => False
+      end
+  | _ => False
+  end.
+Proof. vm_compute. repeat split; reflexivity. Qed.
 
 (* ... and the board a `position` command leaves behind carries the ordering value 0 (the loader writes 0, the text-move
    applier never touches the field): the hypothesis `order_heuristic b < POS_INF` above holds for every `position ...`, `go` *)
